@@ -179,3 +179,82 @@ def no_swallow(repo: Repo, rep, rule: str, modules: tuple[str, ...] = ("pdu", "p
                 else:
                     rep.fail(rule, f"{short}.{fq}", h.body[0] if h.body else node, f"`except {caught}` in the PDU codec can complete without raising: an item or field the peer sent that cannot be converted is dropped silently instead of failing the PDU (invalid PDU -> A-ABORT / rejection), so the checks that depend on that item never run", mod=m, node=h)
     return n
+
+
+def _loop_emits(fn: ast.AST):
+    """(loop, [emit statements]) for every loop of `fn` whose body yields or appends"""
+    from .loader import walk_no_nested
+
+    out = []
+    for lp in walk_no_nested(fn):
+        if not isinstance(lp, (ast.For, ast.While)):
+            continue
+        emits = []
+        for st in lp.body:
+            for x in ast.walk(st):
+                if isinstance(x, (ast.Yield, ast.YieldFrom)) or (isinstance(x, ast.Call) and isinstance(x.func, ast.Attribute) and x.func.attr in ("append", "add_transfer_syntax")):
+                    s_ = enclosing(x, (ast.stmt,))
+                    if s_ is not None and s_ not in emits:
+                        emits.append(s_)
+        if emits:
+            out.append((lp, emits))
+    return out
+
+
+def silent_iterations(fn: ast.AST) -> list[tuple[ast.AST, list[str]]]:
+    """loops of `fn` that emit (yield / append) but have a path through one iteration that emits nothing
+    and does not leave by raise / return / break: -> [(loop, witness)]"""
+    from .cfg import CFG, typestate, witness
+    from .loader import body_nodoc
+
+    res = []
+    loops = _loop_emits(fn)
+    if not loops:
+        return res
+    cfg = CFG(fn, body=body_nodoc(fn), local_exc_only=True)
+    for lp, emits in loops:
+        head = [n for n in cfg.nodes if n.ast is lp and n.kind in ("iter", "test")]
+        if len(head) != 1:
+            continue
+        h = head[0]
+
+        def transfer(n, st, h=h, emits=emits):
+            if n is h:
+                return [("leak" if st in ("none", "leak") else "none", None)]
+            if n.kind == "stmt" and n.ast in emits:
+                return [("emitted", {l for _, l in n.succ if l != "exc"}), (st, {"exc"})]
+            return [(st, None)]
+
+        ins, pred = typestate(cfg, "emitted", transfer)
+        if "leak" in {s for v in ins.values() for s in v}:
+            leak_at = [nid for nid, v in ins.items() if "leak" in v]
+            n0 = next(n for n in cfg.nodes if n.id == leak_at[0])
+            res.append((lp, witness(cfg, pred, n0, "leak")))
+    return res
+
+
+def decoder_loops_complete(repo: Repo, rep, rule: str, only: tuple[str, ...] | None = None) -> int:
+    """The item generators of the codec (`_generate_items`, `_wrap_generate_items`) walk a received
+    byte string item by item. Every iteration must hand on the item it just framed (yield / append) or
+    raise: an iteration that silently moves on drops something the peer sent - for a P-DATA-TF that
+    can be the fragment carrying the 'last' bit, for an A-ASSOCIATE item a proposal."""
+    from .alpha import functions_of
+
+    n = 0
+    for short in ("pdu", "pdu_items"):
+        m = repo.mod(short)
+        for q, fn in functions_of(m.tree):
+            if q.split(".")[-1].split("#")[0] not in ("_generate_items", "_wrap_generate_items"):
+                continue
+            if only is not None and q not in only:
+                continue
+            loops = _loop_emits(fn)
+            if not loops:
+                continue
+            n += 1
+            bad = silent_iterations(fn)
+            if not bad:
+                rep.ok(rule, f"{short}.{q} :: every iteration of the item loop yields / appends or raises")
+            for lp, path in bad:
+                rep.fail(rule, f"{short}.{q}", lp, "an iteration of the item loop can complete without handing on the item it framed: what the peer sent is dropped silently (a zero-length last fragment loses its 'last' bit and the message never completes; a negotiation item is ignored)", mod=m, node=lp, path=path)
+    return n
